@@ -93,7 +93,7 @@ def link_kind_ok(cache, path, data, kind):
 def scenario(rng, idx):
     return dict(cls=("HashFileDB", "LocalHashFileDB")[idx % 2], existing=LINKS[(idx // 2) % 3], configured=LINKS[(idx // 6) % 3],
                 with_state=bool((idx // 18) % 2), relink=rng.random() < 0.6, prior=rand_tree(rng), target=rand_tree(rng),
-                single=rng.random() < 0.12, same=rng.random() < 0.35, mix=(rng.randrange(1, 10**6) if rng.random() < 0.4 else 0))
+                single=rng.random() < 0.2, same=rng.random() < 0.35, mix=(rng.randrange(1, 10**6) if rng.random() < 0.4 else 0))
 
 
 def run_single_file(sc):
@@ -114,15 +114,20 @@ def run_single_file(sc):
             transfer(staging, cache, {tobj.hash_info}, shallow=False)
             cache.cache_types = [sc["existing"]]
             checkout(ws, FS, tobj, cache, force=True, state=state)
-            if os.path.islink(ws) or os.stat(ws).st_nlink > 1:
+            if sc["same"]:
+                pass  # the file has the target's bytes and the EXISTING link type: only a relinking checkout has something to do
+            elif os.path.islink(ws) or os.stat(ws).st_nlink > 1:
                 os.unlink(ws)
+                open(ws, "wb").write(b"somebody edited this")  # an edited ordinary copy
             else:
                 os.chmod(ws, 0o644)
-            open(ws, "wb").write(b"somebody edited this")  # an edited ordinary copy
+                open(ws, "wb").write(b"somebody edited this")
             cache.cache_types = [sc["configured"]]
             checkout(ws, FS, tobj, cache, force=True, relink=sc["relink"], state=state)
             if open(ws, "rb").read() != b"target bytes":
                 problems.append(f"single file: forced checkout (relink={sc['relink']}, {sc['configured']}) left {open(ws, 'rb').read()[:30]!r}")
+            elif sc["relink"] and not link_kind_ok(cache, ws, b"target bytes", sc["configured"]):
+                problems.append(f"single file: after a relinking checkout to {sc['configured']} (from {sc['existing']}, {'unedited' if sc['same'] else 'edited'}) the file is not that link type")
             elif checkout(ws, FS, tobj, cache, force=True, state=state):
                 problems.append("single file: second checkout did not report 'nothing to do'")
         except Exception as e:  # noqa: BLE001
@@ -220,7 +225,7 @@ def main():
             failures.append({"scenario": {k: (v if not isinstance(v, dict) else {a: b.decode() for a, b in v.items()}) for k, v in sc.items()}, "problems": ps})
     print(json.dumps({"evaluations": evals, "distinct_nontrivial": evals, "n_failures": len(failures), "failures": failures[:4],
                       "bound": f"{n} seeded (prior, target) pairs: <= 6 files in <= 3 levels, duplicate contents and empty files, 3x3 link types, "
-                               "2 store classes, with/without state, relink on/off, single-file targets over an edited copy; prior/target agree in kind"}))
+                               "2 store classes, with/without state, relink on/off, single-file targets over an edited copy or over the unedited file of another link type; prior/target agree in kind"}))
 
 
 if __name__ == "__main__":
